@@ -31,6 +31,7 @@ S0 == [now |-> 0, n |-> 0, want |-> FALSE, cl |-> 0,
        late |-> <<>>,            \* frames fed on a connection that ended before they were delivered
        blocked |-> 0,            \* blocking subscribers installed and not released
        stalled |-> {},           \* connections whose send buffer is full (the console does not read)
+       ovl |-> FALSE,
        idleSince |-> -1,         \* since when no connection exists or is being attempted (-1: one is)
        openSince |-> -1,         \* since when the client has been open without interruption
        bp |-> FALSE,             \* an unencodable message may sit in the queue
@@ -54,7 +55,9 @@ UpConns(s)   == {c \in Conns(s) : s.conn[c] = "up"}
 \* `ret` event; each pending call therefore records the range [lo, hi] of the number of held
 \* messages, and whether the client was open / not open, over that interval (Track, applied after
 \* every event).  C16 fixes the outcome only when the whole interval agrees.
-DefHeld(s)  == Cardinality({i \in HeldIdx(s) : s.acc[i].st = "ok"})
+\* (a call still in progress whose frame has already been seen on the wire has certainly been accepted)
+Certain(e)  == e.st = "ok" \/ (e.st = "calling" /\ e.att > 0)
+DefHeld(s)  == Cardinality({i \in HeldIdx(s) : Certain(s.acc[i])})
 Calling(s)  == {i \in Idx(s) : s.acc[i].st = "calling"}
 \* messages accepted before an earlier close(): the statements do not say whether they are kept
 \* (they may still occupy the buffer, and may or may not be transmitted after a re-open)
@@ -64,7 +67,7 @@ StaleHeld(s) == Cardinality({i \in Idx(s) : LET e == s.acc[i] IN
 Track(s) ==
   IF Calling(s) = {} THEN s
   ELSE LET d  == DefHeld(s)
-           nc == Cardinality(Calling(s))
+           nc == Cardinality({i \in Calling(s) : ~Certain(s.acc[i])}) + 1
            sh == StaleHeld(s)
        IN [s EXCEPT !.acc = [i \in Idx(s) |->
              IF s.acc[i].st # "calling" THEN s.acc[i]
@@ -78,8 +81,9 @@ Track(s) ==
 
 \* Whether the client is open: decided by the LAST open_socket()/close() call, but while any
 \* close() has been called and has not returned the statements fix nothing ("closing").
-CallOpen(s)  == [s EXCEPT !.want = TRUE]
-CallClose(s) == [s EXCEPT !.want = FALSE, !.cl = @ + 1]
+\* (ovl: opened while a close() was still in progress - the statements speak of a LATER open only)
+CallOpen(s)  == [s EXCEPT !.want = TRUE, !.ovl = s.cl > 0]
+CallClose(s) == [s EXCEPT !.want = FALSE, !.cl = @ + 1, !.ovl = FALSE]
 RetClose(s)  == [s EXCEPT !.cl = IF @ > 0 THEN @ - 1 ELSE 0,
                           !.acc = [i \in Idx(s) |-> [s.acc[i] EXCEPT !.stale = TRUE]]]
 
@@ -216,7 +220,7 @@ Quiesce(s) ==
             THEN V(s2, "DefectNotClosed") ELSE s2
       s4a == IF q /\ \E c \in Conns(s) : s.conn[c] = "half" THEN V(s3, "HalfOpenNotClosed") ELSE s3
       \* C07 / C15: an open client is connected, connecting, or in its 2 s back-off - it never sits idle
-      s4 == IF q /\ Op(s) = "yes" /\ s.idleSince >= 0 /\ s.now - s.idleSince >= GIVEUP_MS
+      s4 == IF q /\ Op(s) = "yes" /\ ~s.ovl /\ s.idleSince >= 0 /\ s.now - s.idleSince >= GIVEUP_MS
                /\ s.openSince >= 0 /\ s.now - s.openSince >= GIVEUP_MS
             THEN V(s4a, "GaveUpConnecting") ELSE s4a
   IN [s4 EXCEPT !.bp = IF up # {} /\ Op(s) = "yes" /\ q THEN FALSE ELSE @]
